@@ -120,7 +120,7 @@ package inject
 //@   ensures forall i int :: 0 <= i && i < len(args) ==> this.lastArgs[i] == old(args[i])
 
 //@ func (*injector).fastInvoke
-//@   props C04 C05
+//@   props C04 C05 C03
 //@   requires injOK(inj) && f != nil && t != nil && numIn >= 0
 //@   modifies *
 //@   nosharedwrites
@@ -138,7 +138,7 @@ package inject
 //@ ghost private field injector.calls int   // reflective calls made by callInvoke
 
 //@ func (*injector).callInvoke
-//@   props C04 C05
+//@   props C04 C05 C03
 //@   requires injOK(inj) && t != nil && numIn >= 0
 //@   modifies *
 //@   nosharedwrites
@@ -156,12 +156,15 @@ package inject
 
 // Invoke: fast invokers go through their Invoke method, everything else through reflection; same resolution for both
 //@ func (*injector).Invoke
-//@   props C04 C05
+//@   props C04 C05 C03
 //@   requires injOK(inj) && f != nil
 //@   modifies *
 //@   nosharedwrites
 //@   panics true
 //@   skip nil@call:NumIn
+// one path only: a fast invoker is called through its Invoke method and never also through reflection
+//@   assert[C04,C03] before fastInvoke#0: implements(f, type(FastInvoker))
+//@   assert[C04,C03] before callInvoke#0: !implements(f, type(FastInvoker))
 
 //@ func IsFastInvoker
 //@   props C04 C05
